@@ -96,7 +96,8 @@ def rand_fields(rng, big=True):
     if rng.random() < 0.35:
         d["dev"] = n()
     if rng.random() < 0.3:
-        d["local"] = [rng.choice([n(), "abc", "x1", "ubuntu", "1a", "g" + "%x" % rng.randint(0, 2 ** 28)]) for _ in range(rng.randint(1, 4))]
+        d["local"] = [rng.choice([n(), "abc", "x1", "ubuntu", "ubuntu2", "ubuntu20", "rc", "rc1", "a", "ab", "abc1", "g1234abc", "g1234abcd", "1a", "g" + "%x" % rng.randint(0, 2 ** 28)])
+                      for _ in range(rng.randint(1, 4))]
     return d
 
 
@@ -116,6 +117,15 @@ def perturb(rng, a):
         else:
             rel = rel[:max(1, len(rel) - 1)]
         b["release"] = rel
+    elif k == "local" and a["local"] and rng.random() < 0.6:
+        # one local segment extended / shortened (a strict prefix must sort lower), or its case changed (equal)
+        loc = list(a["local"])
+        i = rng.randrange(len(loc))
+        if isinstance(loc[i], str):
+            loc[i] = rng.choice([loc[i] + rng.choice("0a9z"), loc[i][:-1] or "a", loc[i].upper()])
+        else:
+            loc[i] = rng.choice([loc[i] + 1, max(0, loc[i] - 1), loc[i] * 10])
+        b["local"] = loc
     elif k in ("post", "dev") and a[k] is not None and rng.random() < 0.5:
         b[k] = rng.choice([a[k] + 1, max(0, a[k] - 1), 0, 2 ** 32 - 1, 2 ** 31])
     else:
